@@ -93,19 +93,48 @@ def cases(draw):
         return {"pair": True, "lib": lib, "use": use, "inner": [inner_a, inner_b], "repeat_first": draw(st.booleans())}
     form = draw(st.integers(0, 11))
     if form == 0:
-        # a parameterised macro hands its own formal parameter on to a second parameterised macro, under the same name
-        # (the repository's own macro files use `reg` everywhere); written out by hand: xor A, A ; push A
-        f = draw(st.sampled_from(["reg", "r", "macro-arg1", "x"]))
+        # parameterised macros written out by hand, the inlined rule next to them.  Three variants:
+        #  pass-through   the outer macro hands its own formal on to a second parameterised macro under the same name (the
+        #                 repository's macro files use `reg` everywhere):           xor A, A ; <second>(A)
+        #  fixed-inner    the inner call has a fixed argument, its label is spelled like the outer formal:  xor K, K ; <second>(A)
+        #  nested-key     two formals, one of them named like a key that occurs inside the other one's (mapping-valued) argument:
+        #                 @store(main_reg, dst) = mov [main_reg, dst], called with dst: {$deref: {main_reg: rsp}}
+        variant = draw(st.sampled_from(["pass-through", "fixed-inner", "fixed-inner", "nested-key", "nested-key"]))
         actual = draw(st.sampled_from(["rax", "%r8d", "0x10", 0, "e"]))
+        if variant == "nested-key":
+            key = draw(st.sampled_from(["main_reg", "constant_offset", "register_multiplier"]))
+            deref = {"main_reg": "rsp"}
+            if key != "main_reg" or draw(st.booleans()):
+                deref["constant_offset"] = "0x8"
+            if key == "register_multiplier":
+                deref.update({"register_multiplier": "rcx", "constant_multiplier": 4})
+            formals = [key, "dst"] if draw(st.booleans()) else ["dst", key]
+            body = [{"mov": [key, "dst"] if draw(st.booleans()) else ["dst", key]}]
+            macros_ = [{"name": "@ystore_", "args": formals, "pattern": body}]
+            call = {"@ystore_": None}
+            for f_ in (list(reversed(formals)) if draw(st.booleans()) else formals):
+                call[f_] = actual if f_ == key else {"$deref": dict(deref)}
+            inl = [{"mov": [actual if o_ == key else {"$deref": dict(deref)} for o_ in body[0]["mov"]]}]
+            in_file, files = split_definitions(draw, macros_)
+            return {"handmade": "nested-pass-through", "variant": variant, "factored": [call], "inlined": inl, "macros_in_file": in_file, "macro_files": files}
+        f = draw(st.sampled_from(["reg", "r", "macro-arg1", "x"]))
+        fixed = draw(st.sampled_from(["rbx", "%r9", "0x20"]))
         inner = {"name": "@yinner_", "args": [f], "pattern": [{"xor": [f, f]}]}
         second = draw(st.sampled_from([{"push": [f]}, {"mov": [f, "rbx"]}, "ret"]))
-        outer = {"name": "@youter_", "args": [f], "pattern": [{"$and": [{"@yinner_": None, f: f}, second]}]}
+        given = f if variant == "pass-through" else fixed
+        kids = [{"@yinner_": None, f: given}, second]
+        if draw(st.booleans()):
+            kids = [second, {"@yinner_": None, f: given}]
+        outer = {"name": "@youter_", "args": [f], "pattern": [{"$and": kids}]}
+
         def sub_(n_):
             return {k_: [actual if o_ == f else o_ for o_ in v_] for k_, v_ in n_.items()} if isinstance(n_, dict) else n_
-        inl = [{"$and": [{"xor": [actual, actual]}, sub_(second)]}]
+
+        got = actual if variant == "pass-through" else fixed
+        inl = [{"$and": [{"xor": [got, got]} if isinstance(k_, dict) and "@yinner_" in k_ else sub_(k_) for k_ in kids]}]
         macros_ = [outer, inner]
         in_file, files = split_definitions(draw, macros_)
-        return {"handmade": "nested-pass-through", "factored": [{"@youter_": None, f: actual}], "inlined": inl, "macros_in_file": in_file, "macro_files": files}
+        return {"handmade": "nested-pass-through", "variant": variant, "factored": [{"@youter_": None, f: actual}], "inlined": inl, "macros_in_file": in_file, "macro_files": files}
     if form == 1:
         # compositionality, no reference needed: the regex of [X, "@m"] is the regex of [X] followed by that of ["@m"], whatever
         # a `times` on the invocation X of an arg-less tree macro means - one use must not change what another use compiles to
@@ -304,7 +333,7 @@ def evaluate_handmade(case):
     sc = jasm_io.scratch()
     paths = [sc.write(f"macros_{q}.yaml", jasm_io.dump_yaml({"macros": f})) for q, f in enumerate(case["macro_files"])]
     mf = case["macros_in_file"] or None
-    ev.tags = ["kind=" + case["handmade"]] + (["extra-files"] if paths else [])
+    ev.tags = ["kind=" + case["handmade"]] + (["extra-files"] if paths else []) + (["variant=" + case["variant"]] if case.get("variant") else [])
     ev.nontrivial = True
     if case["handmade"] == "nested-pass-through":
         rf = jasm_io.compile_rule(jasm_io.make_doc(case["factored"], macros=mf), macros=paths or None)
@@ -315,7 +344,7 @@ def evaluate_handmade(case):
         if rf[0] != "ok":
             ev.dev("factored-rule-rejected", error=list(rf[1:]), factored=case["factored"])
         elif rf[1] != ri[1]:
-            ev.dev("nested-call-differs-from-inlining", factored_regex=rf[1][:400], inlined_regex=ri[1][:400])
+            ev.dev("nested-call-differs-from-inlining", variant=case.get("variant"), factored=case["factored"], macros=case["macros_in_file"] + [m_ for f_ in case["macro_files"] for m_ in f_], factored_regex=rf[1][:400], inlined_regex=ri[1][:400])
         ev.sample = {"factored": case["factored"], "inlined": case["inlined"], "macros_in_file": case["macros_in_file"], "macro_files": case["macro_files"]}
         return ev
     x, other = case["x"], case["other"]
